@@ -300,6 +300,9 @@ def realise(unit, element, word, rules, same_id=None, prefix=None, unregister=Fa
         else:
             nm = a
         p.add_child(Node(nm))
+    if unregister and len(word) % 2 == 1:
+        for c in p.children:
+            c.parent = None            # hostile pass: children listed but not linked back (the `children` property / list surgery leave it so)
     return p
 
 
